@@ -262,6 +262,22 @@ pub fn exec_rt(req: &Value) -> Value {
         }
         let t = req["t"].as_u64().unwrap_or(12) as u8;
         let p = Proto::parse(&proto);
+        if req["op"].as_str() == Some("skip") {
+            // the protocol's own skipper on one value of wire type t
+            return if mode == "async" {
+                let (sched, chunk) = sched_of(req, input.len());
+                let a = decode_async(p, &input, &[t], sched, chunk, None, true);
+                match a.err {
+                    None => json!({"ok": true, "used": a.taken}),
+                    Some(e) => json!({"ok": false, "err": e, "panic": e.starts_with("panic"), "hang": e.starts_with("hang")}),
+                }
+            } else {
+                match vh::protos::skip_one(p, &input, t) {
+                    Ok((n, used)) => json!({"ok": true, "used": used, "reported": n}),
+                    Err(e) => json!({"ok": false, "panic": e.starts_with("panic"), "err": e}),
+                }
+            };
+        }
         if mode == "async" {
             let (sched, chunk) = sched_of(req, input.len());
             let a = decode_async(p, &input, &[t], sched, chunk, req["eof_at"].as_u64().map(|k| k as usize), false);
